@@ -784,7 +784,7 @@ def propagateCmd (rest : String) : String :=
   | _ => "bad-op"
 
 /-- `lessthan <curve tag> <stmt>*` with `I:<key>:<L|U|N.<size|->.<size text>>` (an instantiation) and
-    `P:<key>:<port>:<0|1 indexed>:<whole>:<elem,elem,…|->:<block>` (an assignment to a port; an expression is `<id>/<0|1 fixed>`); a key is `<id>~<name>~<acc;acc;…|->` as for
+    `P:<key>:<port>:<0|1 indexed>:<whole>:<elem,elem,…|->:<block>` (an assignment to a port; an expression is `<id>/<0|1 fixed>`), `D:<block>:<dominators>`; a key is `<id>~<name>~<acc;acc;…|->` as for
     `sigassign`. Prints the reported values. -/
 def lessthanCmd (args : List String) : String :=
   match args with
@@ -810,7 +810,11 @@ def lessthanCmd (args : List String) : String :=
         | ["P", k, port, ix, whole, elems, blk] => .input (keyOf k) port (ix == "1") (valOf whole)
             (if elems == "-" then none else some ((elems.splitOn ",").map valOf)) (blk.toNat?.getD 0)
         | _ => .other)
-      let rs := LessThanPass.reported c ss
+      -- `D:<block>:<dominator,dominator,…|->`: the dominators of a block (`Cfg::get_dominators`)
+      let doms : List (Nat × List Nat) := toks.filterMap (fun t => match t.splitOn ":" with
+        | ["D", b, ds] => some (b.toNat?.getD 0, (csv ds ",").filterMap String.toNat?)
+        | _ => none)
+      let rs := LessThanPass.reported c (LessThanPass.domOf doms) ss
       if rs.isEmpty then "-" else ",".intercalate rs
   | _ => "bad-op"
 
@@ -948,6 +952,15 @@ def wfcheckCmd (rest : String) : String :=
       if ps.isEmpty then "wf" else "not-wf " ++ "; ".intercalate ps
   | _ => "bad-op"
 
+/-- `complexity <cfg>`: nodes, edges and `CfgLift.complexity` of a real CFG, and whether the unsigned subtraction is defined -/
+def complexityCmd (rest : String) : String :=
+  match Sexp.parse rest with
+  | some c =>
+    let bs := cfgSkel c
+    let e := CfgLift.edges bs
+    s!"{bs.length} {e} {CfgLift.complexity bs} {if bs.length ≤ 2 + e then "defined" else "underflow"} {CfgLift.tooComplex bs}"
+  | none => "bad-op"
+
 /-- `pathhyps <ssa cfg>`: the hypothesis `SingleDef` of the path-level soundness theorems
     (`C06_path_sound`, `C07_path_sound`, C20) in its decidable form `Propagate.singleDefB`, evaluated on
     the statements of a real SSA dump; lists the variables that have more than one substitution -/
@@ -980,6 +993,7 @@ def handle (line : String) : String :=
   if line.startsWith "desugar " then desugarCmd (line.drop 8).toString else
   if line.startsWith "cfglift " then cfgliftCmd (line.drop 8).toString else
   if line.startsWith "wfcheck " then wfcheckCmd (line.drop 8).toString else
+  if line.startsWith "complexity " then complexityCmd (line.drop 11).toString else
   if line.startsWith "traces " then tracesCmd (line.drop 7).toString else
   if line.startsWith "uniq " then uniqCmd (line.drop 5).toString else
   if line.startsWith "ssacheck " then ssacheckCmd (line.drop 9).toString else
